@@ -22,6 +22,7 @@ def execute(case):
     ea, eb = case.get("emb_a", "fiber"), case.get("emb_b", "fiber")
     out = {"tid": case["tid"], "a": case["a"], "b": case["b"], "c": case.get("c", case["b"]), "d": d, "depth": depth, "exc": "ok",
            "tensors": 1 if (ea == "tensor" and eb == "tensor") else 0, "sameids": 0 if case.get("diffids") else 1}
+    proj.VALUE_MAP = proj.VALUE_MAPS.get(case.get("vmap", ""))
     try:
         ids_b = ["X", "Y", "Z"] if case.get("diffids") else IDS
         A, ra, pa = build(case["a"], depth, ea, d, IDS, case.get("shape_a"))
@@ -51,4 +52,6 @@ def execute(case):
         out.setdefault("ne_a", {"k": "F", "e": []})
         out.setdefault("pre", [])
         out.setdefault("post", [])
+    finally:
+        proj.VALUE_MAP = None
     return out
